@@ -97,6 +97,11 @@ def build(run, prop=ID):
     sect(run, build_encode_roundtrip, run, prop, E, cd)
     sect(run, build_decode_any, run, prop, E, cd)
     sect(run, build_cross, run, prop, E, cd)
+    # "every datagram the message codec produces is accepted" rests on what data_msg validates and emits: the cross lemma above takes that from
+    # the layout (spec/trxd_layout.py, = the message codec's contract C01/C13); the validation contract is discharged in this check as well,
+    # so a message codec that starts to accept and emit something the definitions refuse fails here too
+    from props import C13 as _C13
+    sect(run, _C13.build, run, prop)
     note_engine(run, E)
     run.assume("PDU structure (STRUCT tuples, bit offsets/masks, lambdas) is taken from the live objects built by the real constructors; "
                "the constructors themselves (BitFieldSet.__init__ layout arithmetic) are C16's obligations")
@@ -419,7 +424,21 @@ def build_cross(run, prop, E, cd):
 
 # ------------------------------------------------------------------ witness / replay
 
+def _is_c13(func):
+    return str(func).startswith(("data_msg.", "data_if."))
+
+
+def block_model(o, model):
+    if _is_c13(o.func):
+        from props import C13 as _C13
+        return _C13.block_model(o, model)
+    return None
+
+
 def witness(o, model):
+    if _is_c13(o.func):
+        from props import C13 as _C13
+        return _C13.witness(o, model)
     t = dict(o.tag or {}) if isinstance(o.tag, dict) else {}
     what = t.get("what")
     if what == "encode":
@@ -474,6 +493,9 @@ def layout_accepts(name, data):
 
 
 def replay(payload):
+    if _is_c13(payload.get("function")):
+        from props import C13 as _C13
+        return _C13.replay(payload)
     f = payload["inputs"]
     what = f.get("what")
     tp = toolkit("trxd_proto")
